@@ -140,10 +140,21 @@ DiffSummaries(rec) ==
         {Item("C15", "changelog-missing-or-wrong", e.type \o " " \o e.file, {}) : e \in expLog \ obsLog} \cup
         (IF arrowFree THEN {} ELSE {Item("C15", "changelog-unexpected", e.type \o " " \o e.file, {}) : e \in obsLog \ expLog})
 
+BagOf(s) == [x \in Range(s) |-> Cardinality({i \in DOMAIN s : s[i] = x})]
+\* the tables the command prints (`coca git -t`, `-a`, `-o`) are the summaries, row for row
+DiffCli(o) ==
+  IF ~o.cli.ran THEN {}
+  ELSE IF ~o.cli.ok THEN {Item("C15", "cli-table-missing-or-malformed", "", {})}
+  \* as collections: the order of rows with equal sort keys is not promised, and the two listings come from two processes
+  ELSE (IF BagOf(o.cli.team) = BagOf(o.team) THEN {} ELSE {Item("C15", "cli-team-table-differs", ToString(Len(o.cli.team)) \o " rows for " \o ToString(Len(o.team)), {})}) \cup
+       (IF BagOf(o.cli.age) = BagOf([i \in DOMAIN o.age |-> o.age[i].name]) THEN {} ELSE {Item("C15", "cli-age-table-differs", ToString(Len(o.cli.age)) \o " rows for " \o ToString(Len(o.age)), {})}) \cup
+       (IF BagOf(o.cli.top) = BagOf(o.top) THEN {} ELSE {Item("C15", "cli-top-table-differs", ToString(Len(o.cli.top)) \o " rows for " \o ToString(Len(o.top)), {})})
+
 \* code age oldest first: dates are ISO strings; the harness also gives each age entry its day number
 AgeSorted(o) == \A i \in 1..Len(o.age) - 1 : o.age[i].day <= o.age[i + 1].day
 
 Diff(rec) ==
   (IF rec.mode = "real" THEN DiffLog(rec) ELSE {}) \cup DiffSummaries(rec) \cup
+  (IF rec.observed.panic THEN {} ELSE DiffCli(rec.observed)) \cup
   (IF rec.observed.panic \/ AgeSorted(rec.observed) THEN {} ELSE {Item("C15", "age-not-sorted", "", {})})
 =============================================================================
